@@ -147,6 +147,22 @@ pub fn scenarios(tier: &str) -> Vec<Scenario> {
         }
         run_seq(&alphabet_full(), 2, cfg)
     }));
+    v.push(Scenario::new("unbonding_deadline_with_sub_second_block_times", &["unbonding_paid", "unbonding_still_pending", "end"], || {
+        // found missing by seed C14e: block times with a sub-second part; the unbonding is due a full
+        // period after the (fractional) time of the request, not after its whole seconds
+        let cut_ns: [u64; 3] = [59_500_000_000, 59_999_999_999, 60_000_000_000];
+        let first = cut_ns[choose(3)];
+        run_fixed(
+            &[
+                Op::Delegate { d: 0, v: 0 },
+                Op::Advance { dt: DtSel::Nanos(900_000_000) },
+                Op::Undelegate { d: 0, v: 0 },
+                Op::Advance { dt: DtSel::Nanos(first) },
+                Op::Advance { dt: DtSel::Nanos(60_000_000_000 - first + 1) },
+            ],
+            Cfg::default(),
+        )
+    }));
     v.push(Scenario::new("seq3_small_alphabet", &["delegate_ok", "undelegate_ok", "unbonding_paid", "unbonding_still_pending", "slash_ok", "slash_err", "end"], || {
         run_seq(&alphabet_small(), 3, Cfg::default())
     }));
